@@ -86,7 +86,8 @@ RuleFailedFor(sc, rules, r, out, T) ==
                                    AnchorSet(sc, RuleNamed(rules, r.sup[k])) \cup Suppliers(sc, RuleNamed(rules, r.sup[k])))}
                            : k \in DOMAIN r.sup}
         mustDrop(c) == \E q \in supCores : Contains(q, Cover(R, LocsOf(sc, c))) /\ 2 * Size(q) < R.L
-        mayDrop(c) == \E q \in supCores \cup supCoresWide : Overlaps(q, Cover(R, LocsOf(sc, c)))
+        (* a superior group needing half the ring or more has no unique span: its real core may be anywhere *)
+        mayDrop(c) == \E q \in supCores \cup supCoresWide : Overlaps(q, Cover(R, LocsOf(sc, c))) \/ (R.circ /\ 2 * Size(q) >= R.L)
     IN  UNION {IF f(i) = {} THEN {"no_protocluster_without_anchoring_group"}
                ELSE CoreFailed(sc, r, f(i), out[i].core) : i \in mine}
         \cup UNION {ExtentFailed(sc, r, out[i].core, out[i].extent) : i \in mine}
